@@ -134,6 +134,18 @@ def configs(thorough, seed):
                  compute_eigenvalue_outer_product=pre)
         out.append({'model': model, 'dtype': 'f32', 'batch': 2, 'world': 1,
                     'seed': seed, 'kfac': k, 'history': [['train']] * 4})
+    # a step that preconditions with second-order data recomputed by
+    # load_state_dict (fresh object built with OTHER constants): the system
+    # must hold with the restored damping and factors
+    for model, (m, pre), lam in itertools.product(
+            ['mlp3', 'conv'], methods, [0.02, 0.3]):
+        k = dict(damping=lam, factor_decay=0.5, kl_clip=1e-3, lr=0.1,
+                 compute_method=m, compute_eigenvalue_outer_product=pre,
+                 factor_update_steps=3, inv_update_steps=3)
+        out.append({'model': model, 'dtype': 'f32', 'batch': 2, 'world': 1,
+                    'seed': seed, 'kfac': k, 'ckpt_perturb': True,
+                    'history': [['train'], ['train'], ['ckpt', True, True],
+                                ['train'], ['train'], ['train']]})
     # simulated worlds: ranks that RECEIVE second-order data or gradients
     # must satisfy the system as well, on every step
     for world, strat in ((2, 'COMM_OPT'), (2, 'MEM_OPT'), (4, 'COMM_OPT'),
@@ -168,7 +180,9 @@ def main(run: core.Run):
         'x {inverse, eigen, eigen+prediv} x damping {1e-2..10} x decay '
         '{0.5,0.95,1} x dtype triples x clipping active/inactive, every step '
         'of a multi-step run with both intervals 1; plus rank-deficient / '
-        'bf16-factor long runs and step-dependent damping; plus simulated '
+        'bf16-factor long runs and step-dependent damping; a step right '
+        'after a checkpoint was loaded into a fresh object built with other '
+        'constants (intervals 3/3); plus simulated '
         'worlds 2 and 4 under every strategy (two fixed schedules, every '
         'rank checked); after each step '
         'the gradient divided by nu must satisfy the defining system built '
